@@ -43,21 +43,6 @@ func posOf(fd *ast.FuncDecl) token.Pos {
 	return fd.Pos()
 }
 
-func blockTerminates(c *Ctx, b *ast.BlockStmt) bool {
-	if len(b.List) == 0 {
-		return false
-	}
-	switch x := b.List[len(b.List)-1].(type) {
-	case *ast.ReturnStmt:
-		return true
-	case *ast.ExprStmt:
-		if call, ok := x.X.(*ast.CallExpr); ok && c.isBuiltin(call, "panic") {
-			return true
-		}
-	}
-	return false
-}
-
 type tfM struct {
 	c      *Ctx
 	ct     *Cont
